@@ -52,7 +52,8 @@ TV(t, env) ==
   CASE t.k = "num" -> CInt(t.n)
     [] t.k = "var" -> env[<<t.v, t.s>>]
     [] t.k = "fc" -> env[FcKey(t)]
-    [] t.k = "sym" -> VSym(t.r)
+    \* a symbolic constant that the user guide declares as a placeholder denotes the placeholder's value
+    [] t.k = "sym" -> IF <<t.c, "ph">> \in DOMAIN env THEN env[<<t.c, "ph">>] ELSE VSym(t.r)
     [] t.k = "inf" -> VInf
     [] t.k = "sup" -> VSup
     [] t.k = "neg" -> NegI(TV(t.a, env))
